@@ -4,6 +4,7 @@ pub mod conc;
 pub mod lin12;
 pub mod sched;
 pub mod stress;
+pub mod toks;
 pub mod check;
 pub mod exec;
 pub mod gen;
